@@ -66,6 +66,8 @@ def c09(tier, seed):
         ("vamm1", "update_owner", dict(owner="newowner")),
         ("vamm1", "set_open", dict(open=False)),
         ("vamm2", "set_open", dict(open=False)),
+        ("vamm1", "set_open", dict(open=True)),          # a request for the state the vAMM is already in
+        ("vamm2", "set_open", dict(open=True)),
         ("engine", "update_config", dict(liqfee=4)),
         ("engine", "update_config", dict(owner="newowner")),
         ("engine", "set_pause", dict(pause=True)),
@@ -222,6 +224,12 @@ def c20(tier, seed):
         e = dict(imr=rng.choice([5, 10, 100]), mmr=rng.choice([0, 5]), liqfee=rng.choice([0, 5, 100]), plr=rng.choice([0, 25, 100]))
         out.append(dict(id="c20-%d" % k, deploy=dep("cw20", engine=e), ops=ops))
         k += 1
+    # a vAMM whose funding period is longer than one week: the TWAP interval bound does not move with it
+    for period in (1209600, 2592000):
+        for tw in (604800, 604801, 1209600, 1209601, 2592000, 59, 60):
+            out.append(dict(id="c20-%d" % k, deploy=dep("cw20", vamms=[dict(period=period)]),
+                            ops=[tx("vamm1", "update_config", "owner", dict(twapint=tw)), query("vamm1", "config", {})]))
+            k += 1
     # registration requires equal decimals
     for vdec in (1, 2, 3):
         out.append(dict(id="c20-%d" % k, deploy=dep("cw20", vamms=[{}, dict(dec=vdec, registered=False)]),
@@ -396,7 +404,9 @@ def c03(tier, seed):
     for coll in ("cw20", "native"):
         native = coll == "native"
         f = lambda m, lev=1000: (m + (m * lev // 100) * 15 // 100) if native else 0
-        for ptr in (tx("vamm1", "update_config", "owner", dict(ifund="stranger")),
+        for ptr in (tx("engine", "update_config", "owner", dict(ifund="stranger")),
+                    tx("engine", "update_config", "owner", dict(ifund="sfx", fpool="tr3")),
+                    tx("vamm1", "update_config", "owner", dict(ifund="stranger")),
                     tx("engine", "update_config", "owner", dict(fpool="stranger")),
                     tx("vamm1", "update_config", "owner", dict(feed="stranger"))):
             out.append(dict(id="c03-ptr-%s-%d" % (coll, len(out)), deploy=dep(coll, vamms=[dict(toll=5, spread=10)]),
@@ -480,10 +490,10 @@ def c06(tier, seed):
                         out.append(dict(id="c06-%d" % k, deploy=dep(coll, engine=dict(plr=plr, liqfee=liqfee)), ops=ops))
                         k += 1
     # oracle spread sweep: victim under water at the vAMM price, oracle placed s% away from spot
-    spreads = [-1200, -1100, -1050, -1000, -950, 900, 950, 1000, 1025, 1050, 1075, 1100, 1112, 1125, 1200]
+    spreads = [-6000, -3500, -2000, -1200, -1100, -1050, -1000, -950, 900, 950, 1000, 1025, 1050, 1075, 1100, 1112, 1125, 1200, 2000, 3500, 6000, 9000]
     for vside in ("buy", "sell"):
         pside = "sell" if vside == "buy" else "buy"
-        for push in (4500, 5200, 6000, 8000):
+        for push in (4500, 5200, 6000, 8000, 12000, 20000):
             sgn = 1 if vside == "buy" else -1
             sp = spot_after([sgn * 25000, -sgn * push])
             for s_bp in spreads:
@@ -768,6 +778,61 @@ def c10(tier, seed):
     return out
 
 
+def c10adm(tier, seed):
+    """administration while positions are live: every configuration / role / registry / gate transaction of every
+    contract issued with three traders holding positions on two vAMMs, then each position queried through the engine
+    and traded on by its owner (no administrator's transaction may alter anybody's position)"""
+    out = []
+    k = 0
+    admin = [
+        ("engine", "update_config", "owner", dict(ifund="stranger")), ("engine", "update_config", "owner", dict(fpool="stranger")),
+        ("engine", "update_config", "owner", dict(ifund="sfx", fpool="tr3")), ("engine", "update_config", "owner", dict(owner="newowner")),
+        ("engine", "update_config", "owner", dict(imr=20, mmr=10, plr=50, liqfee=3)), ("engine", "update_config", "owner", dict(ifund="ifund")),
+        ("engine", "update_config", "owner", dict(ifund="tr1")), ("engine", "update_config", "owner", dict(fpool="tr1")),
+        ("engine", "set_pause", "pauser", dict(pause=True)), ("engine", "update_pauser", "pauser", dict(pauser="newowner")),
+        ("engine", "add_whitelist", "pauser", dict(address="tr1")), ("engine", "remove_whitelist", "pauser", dict(address="tr2")),
+        ("vamm1", "update_config", "owner", dict(ifund="stranger")), ("vamm1", "update_config", "owner", dict(feed="stranger")),
+        ("vamm1", "update_config", "owner", dict(toll=3, spread=4, fluct=20)), ("vamm1", "update_config", "owner", dict(engine="newowner")),
+        ("vamm1", "update_config", "owner", dict(hcap=10, oicap=10)), ("vamm1", "update_owner", "owner", dict(owner="newowner")),
+        ("vamm1", "set_open", "owner", dict(open=False)), ("vamm1", "set_open", "owner", dict(open=True)),
+        ("ifund", "remove_vamm", "owner", dict(vamm="vamm1")), ("ifund", "add_vamm", "owner", dict(vamm="vamm1")),
+        ("ifund", "shutdown_vamms", "owner", {}), ("ifund", "update_owner", "owner", dict(owner="newowner")),
+        ("ifund", "withdraw", "owner", dict(amount=100)), ("fpool", "send_token", "owner", dict(amount=10, recipient="tr3")),
+        ("fpool", "remove_token", "owner", {}), ("fpool", "update_owner", "owner", dict(owner="newowner")),
+        ("feed", "append_price", "owner", dict(key="ETH", price=1200, t=100000)), ("feed", "update_owner", "owner", dict(owner="newowner")),
+    ]
+    for coll in ("cw20", "native"):
+        native = coll == "native"
+        f = lambda m: m if native else 0
+        for (c, m, who, a) in admin:
+            for undo in (False, True):
+                ops = [block(15), tx("engine", "add_whitelist", "pauser", dict(address="tr2")),
+                       opn("tr1", "buy", 600, 500, funds=f(600)), opn("tr2", "sell", 300, 500, funds=f(300)),
+                       opn("tr3", "buy", 200, 300, funds=f(200)), opn("tr3", "sell", 150, 200, v="vamm2", funds=f(150)), block(15),
+                       tx(c, m, who, a)]
+                if undo:
+                    # ... and the same transaction reverted by a second one where that is meaningful
+                    if m == "update_config" and c == "engine" and ("ifund" in a or "fpool" in a):
+                        ops += [block(15), tx("engine", "update_config", "owner", dict(ifund="ifund", fpool="fpool"))]
+                    elif m == "set_pause":
+                        ops += [block(15), tx("engine", "set_pause", "pauser", dict(pause=False))]
+                    elif m == "set_open":
+                        ops += [block(15), tx("vamm1", "set_open", "owner", dict(open=not a["open"]))]
+                    elif m == "remove_vamm":
+                        ops += [block(15), tx("ifund", "add_vamm", "owner", dict(vamm="vamm1"))]
+                    else:
+                        continue
+                for t in ("tr1", "tr2", "tr3"):
+                    ops += [query("engine", "position", dict(vamm="vamm1", trader=t))]
+                ops += [query("engine", "position", dict(vamm="vamm2", trader="tr3")),
+                        query("engine", "all_positions", dict(trader="tr3")), block(15),
+                        opn("tr1", "sell", 100, 500, funds=0), tx("engine", "deposit_margin", "tr2", dict(vamm="vamm1", amount=50), funds=f(50)),
+                        tx("engine", "withdraw_margin", "tr3", dict(vamm="vamm1", amount=10)), close("tr1"), close("tr2"), close("tr3"),
+                        close("tr3", v="vamm2")]
+                out.append(dict(id="c10adm-%d" % k, deploy=dep(coll, engine=dict(pauser="pauser"), fpool_bal=1000, vamms=[{}, {}]), ops=ops))
+                k += 1
+    return out
+
 # ------------------------------------------------------------------------------------------------
 # Round-4 families: states and inputs that no earlier generator reached
 def zsr(tier, seed):
@@ -996,6 +1061,10 @@ def c14f(tier, seed):
                        query("ifund", "is_vamm", dict(vamm="vamm1")), t]
                 out.append(dict(id="c14f-%d" % k, deploy=dep(coll, vamms=[{}, {}]), ops=ops))
                 k += 1
+                if t["m"] == "liquidate":
+                    for (plr, liqfee, mmr) in ((25, 1, 5), (25, 1, 10), (50, 5, 10)):
+                        out.append(dict(id="c14f-%d" % k, deploy=dep(coll, engine=dict(plr=plr, liqfee=liqfee, mmr=mmr, imr=10), vamms=[{}, {}]), ops=ops))
+                        k += 1
     return out
 
 def c12hi(tier, seed):
@@ -1623,9 +1692,74 @@ def c18feedlong(tier, seed):
         out.append(dict(id="c18feedlong-%d" % j, deploy=dep("cw20", feed="real", vamms=[{}, {}]), ops=ops))
     return out
 
+
+def c11pl(tier, seed):
+    """funding accrued, then the position is PARTIALLY liquidated (which neither charges nor settles), then its owner
+    closes / withdraws / trades: the settlement must still be charged then"""
+    out = []
+    k = 0
+    day = 86400
+    for coll in ("cw20", "native"):
+        native = coll == "native"
+        for side in ("buy", "sell"):
+            pside = "sell" if side == "buy" else "buy"
+            for off in (-10, 10):
+                for push in (1500, 2000, 2400, 2800, 3200, 3600, 4200):
+                    for tail in ("close", "withdraw", "increase"):
+                        ops = [block(15), opn("tr1", side, 2500, 1000, funds=2500 if native else 0), block(3601),
+                               dict(k="oracle_rel", v="vamm1", off=off), block(day),
+                               tx("engine", "pay_funding", "stranger", dict(vamm="vamm1")),
+                               opn("tr2", pside, push // 10, 1000, funds=push // 10 if native else 0), block(901),
+                               dict(k="oracle_rel", v="vamm1", off=0, interval=1),
+                               query("engine", "margin_ratio", dict(vamm="vamm1", trader="tr1")),
+                               liq("liq", "tr1"), query("engine", "position", dict(vamm="vamm1", trader="tr1")), block(15)]
+                        if tail == "close":
+                            ops += [close("tr1")]
+                        elif tail == "withdraw":
+                            ops += [tx("engine", "withdraw_margin", "tr1", dict(vamm="vamm1", amount=1)), close("tr1")]
+                        else:
+                            ops += [tx("engine", "deposit_margin", "tr1", dict(vamm="vamm1", amount=3000), funds=3000 if native else 0),
+                                    opn("tr1", side, 100, 200, funds=100 if native else 0), close("tr1")]
+                        ops += [close("tr2")]
+                        out.append(dict(id="c11pl-%d" % k, deploy=dep(coll, engine=dict(plr=25, liqfee=1, mmr=8, imr=8), vamms=[dict(period=day)]), ops=ops))
+                        k += 1
+    return out
+
+def c15full(tier, seed):
+    """a fluctuation limit of exactly 100 % (band [0, 2] x the previous close) and of 99 %: opens that would more than
+    double the price within one block"""
+    out = []
+    k = 0
+    for fl in (100, 99):
+        for (a1, a2, a3) in ((20000, 22000, 2000), (41000, 500, 900), (15000, 15000, 15000)):
+            ops = [block(15), opn("tr1", "buy", 100, 100), block(15), opn("tr1", "buy", a1, 100), opn("tr2", "buy", a2, 100),
+                   opn("tr3", "buy", a3, 100), opn("tr2", "buy", a3, 100), block(15), opn("tr3", "sell", 30000, 100), opn("tr1", "sell", 30000, 100),
+                   close("tr2")]
+            out.append(dict(id="c15full-%d" % k, deploy=dep("cw20", trader_bal=50000000, engine=dict(plr=25), vamms=[dict(fluct=fl)]), ops=ops))
+            k += 1
+    return out
+
+
+def noallow(tier, seed):
+    """twin scenarios in which the trader revokes the engine's cw20 allowance after opening: orders whose net collateral
+    flow is zero or towards the trader (reduces, closes without fees) need no allowance"""
+    out = []
+    k = 0
+    for (toll, spread) in ((0, 0), (0, 1)):
+        for side in ("buy", "sell"):
+            osd = "sell" if side == "buy" else "buy"
+            for amt in (1000000000, 999999000):
+                ops = [block(15), opn("tr1", side, 6000, 1000), opn("tr2", osd, 2000, 500), block(15),
+                       tx("token", "decrease_allowance", "tr1", dict(spender="engine", amount=amt)),
+                       opn("tr1", osd, 10, 100), opn("tr1", osd, 3000, 1000), block(15),
+                       dict(k="flatten", s="tr1", v="vamm1", delta=0), close("tr1"), close("tr2")]
+                out.append(dict(id="noallow-%d" % k, deploy=dep("cw20", vamms=[dict(toll=toll, spread=spread)]), ops=ops))
+                k += 1
+    return out
+
 FAMILIES = ["c02lp", "c04", "c04r", "c04p", "c05", "c06", "c06f", "c07", "c08", "c10", "c16", "c17", "c03",
             "zsr", "zsrliq", "attached", "fundzero", "c07edge", "c14f", "c12hi", "c15sub", "selfliq", "c13flat",
-            "dustliq", "fundbig", "fundempty", "c06t", "closelim", "c17q", "c04prepaid", "c05red", "liqfees", "c02tw", "wdrel", "c15fund", "c16pc", "zeroeq", "twoliq", "spike", "fundrnd", "c12wl"]
+            "dustliq", "fundbig", "fundempty", "c06t", "closelim", "c17q", "c04prepaid", "c05red", "liqfees", "c02tw", "wdrel", "c15fund", "c16pc", "zeroeq", "twoliq", "spike", "fundrnd", "c12wl", "c11pl", "c10adm"]
 
 def pool(tier, seed, cap=200, exclude=(), only_cw20=False):
     """a seeded sample across ALL scenario families: every engine property is also judged on the inputs that
@@ -1658,6 +1792,8 @@ def for_property(pid, tier, seed):
     out = []
     if pid == "C09":
         out = [("c09matrix", c09(tier, seed))]
+    if pid == "C01":
+        out = [("c10adm", c10adm(tier, seed))]
     if pid == "C14":
         out = [("c14gates", c14(tier, seed)), ("c14after", c14f(tier, seed))]
     if pid == "C20":
@@ -1682,21 +1818,21 @@ def for_property(pid, tier, seed):
                ("zeroeq", zeroeq(tier, seed)), ("twoliq", twoliq(tier, seed)), ("spike", spike(tier, seed)), ("c04prepaid", c04prepaid(tier, seed))] + ([("c06long", c06long(tier, seed))] if pid in ("C06", "C07") else [])
     if pid == "C10":
         out = [("c10alias", c10(tier, seed)), ("c08sweeps", c08(tier, seed)), ("c16orderings", c16(tier, seed)), ("c07vault", c07(tier, seed)),
-               ("zsrliq", zsrliq(tier, seed)), ("zsr", samp(zsr(tier, seed), n // 2, seed))]
+               ("zsrliq", zsrliq(tier, seed)), ("zsr", samp(zsr(tier, seed), n // 2, seed)), ("c10adm", c10adm(tier, seed)), ("c03ptr", c03(tier, seed))]
     if pid in ("C12", "C04"):
         out = [("c04reverse", c04r(tier, seed)), ("c04partial", c04p(tier, seed)), ("c04funding", c04(tier, seed)), ("c08sweeps", c08(tier, seed)),
                ("c16orderings", c16(tier, seed)), ("c07vault", c07(tier, seed)), ("c12hi", c12hi(tier, seed)), ("fundzero", fundzero(tier, seed)),
-               ("zsr", samp(zsr(tier, seed), n // 2, seed)), ("fundbig", fundbig(tier, seed)), ("c03ptr", c03(tier, seed)), ("c04prepaid", c04prepaid(tier, seed)), ("zeroeq", zeroeq(tier, seed)), ("c12wl", c12wl(tier, seed)), ("fundempty", fundempty(tier, seed)), ("liqfees", samp(liqfees(tier, seed), n // 2, seed)),
+               ("zsr", samp(zsr(tier, seed), n // 2, seed)), ("fundbig", fundbig(tier, seed)), ("c03ptr", c03(tier, seed)), ("c04prepaid", c04prepaid(tier, seed)), ("zeroeq", zeroeq(tier, seed)), ("c12wl", c12wl(tier, seed)), ("c11pl", c11pl(tier, seed)), ("fundempty", fundempty(tier, seed)), ("liqfees", samp(liqfees(tier, seed), n // 2, seed)),
                ("closelim", samp(closelim(tier, seed), n // 2, seed))]
     if pid == "C17":
         out = [("c17stale", c17(tier, seed)), ("closelim", closelim(tier, seed)), ("c17quote", c17q(tier, seed))]
     if pid == "C11":
         out = [("c04partial", c04p(tier, seed)), ("c04funding", c04(tier, seed)), ("c06funding", c06f(tier, seed)), ("fundzero", fundzero(tier, seed)),
-               ("c18long", c18long(tier, seed)[-1:]), ("fundempty", fundempty(tier, seed)), ("fundbig", fundbig(tier, seed)), ("fundrnd", fundrnd(tier, seed))]
+               ("c18long", c18long(tier, seed)[-1:]), ("fundempty", fundempty(tier, seed)), ("fundbig", fundbig(tier, seed)), ("fundrnd", fundrnd(tier, seed)), ("c11pl", c11pl(tier, seed))]
     if pid == "C15":
-        out = [("c15sub", c15sub(tier, seed)), ("c07edge", c07edge(tier, seed)), ("closelim", closelim(tier, seed)), ("c15fund", c15fund(tier, seed))]
+        out = [("c15sub", c15sub(tier, seed)), ("c07edge", c07edge(tier, seed)), ("closelim", closelim(tier, seed)), ("c15fund", c15fund(tier, seed)), ("c15full", c15full(tier, seed))]
     if pid == "C18":
-        out = [("c18long", c18long(tier, seed)), ("c15sub", c15sub(tier, seed)), ("c15fund", c15fund(tier, seed)), ("c18feedlong", c18feedlong(tier, seed))]
+        out = [("c18long", c18long(tier, seed)), ("c15sub", c15sub(tier, seed)), ("c15fund", c15fund(tier, seed)), ("c18feedlong", c18feedlong(tier, seed)), ("c10adm", c10adm(tier, seed))]
     if pid in ENGINE_PROPS:
         # every engine property is also judged on a sample of all other families
         out.append(("pool", pool(tier, seed, cap=220 if q else 4000)))
